@@ -462,6 +462,7 @@ req_sketch<T, C, A> req_sketch<T, C, A>::deserialize(std::istream& is, const Ser
   const bool is_empty = flags_byte & (1 << flags::IS_EMPTY);
   const bool hra = flags_byte & (1 << flags::IS_HIGH_RANK);
   if (is_empty) return req_sketch(k, hra, comparator, allocator);
+  check_k(k);
   check_num_levels(num_levels);
 
   optional<T> tmp; // space to deserialize min and max
@@ -545,6 +546,7 @@ req_sketch<T, C, A> req_sketch<T, C, A>::deserialize(const void* bytes, size_t s
   const bool is_empty = flags_byte & (1 << flags::IS_EMPTY);
   const bool hra = flags_byte & (1 << flags::IS_HIGH_RANK);
   if (is_empty) return req_sketch(k, hra, comparator, allocator);
+  check_k(k);
   check_num_levels(num_levels);
 
   optional<T> tmp; // space to deserialize min and max
@@ -716,6 +718,14 @@ void req_sketch<T, C, A>::check_preamble_ints(uint8_t preamble_ints, uint8_t num
   if (preamble_ints != expected_preamble_ints) {
     throw std::invalid_argument("Possible corruption: preamble ints must be "
         + std::to_string(expected_preamble_ints) + ", got " + std::to_string(preamble_ints));
+  }
+}
+
+template<typename T, typename C, typename A>
+void req_sketch<T, C, A>::check_k(uint16_t k) {
+  if (k < req_constants::MIN_K) {
+    throw std::invalid_argument("Possible corruption: k must be at least "
+        + std::to_string(req_constants::MIN_K) + ", got " + std::to_string(k));
   }
 }
 
